@@ -431,10 +431,15 @@ func (fc *factCtx) defineIntCall(self Lin, call *ssa.Call) {
 		fc.or(Clause{notFound, found})
 		// content axiom: s[0] == c on a dominating edge and the separator does not start with c => Index(s, sep) != 0
 		if name == "strings.Index" || name == "strings.IndexByte" {
+			var first byte
+			have := false
 			if sep, ok := constString(cc.Args[1]); ok && sep != "" {
-				if fc.p.firstByteNot(call, cc.Args[0], sep[0], 0) {
-					fc.or(Clause{Conj{leExpr(self, constLin(-1))}, Conj{leExpr(constLin(1), self)}})
-				}
+				first, have = sep[0], true
+			} else if k, ok := constInt(cc.Args[1]); ok && name == "strings.IndexByte" && k >= 0 && k < 256 {
+				first, have = byte(k), true
+			}
+			if have && fc.p.firstByteNot(call, cc.Args[0], first, 0) {
+				fc.or(Clause{Conj{leExpr(self, constLin(-1))}, Conj{leExpr(constLin(1), self)}})
 			}
 		}
 		return
